@@ -1,4 +1,32 @@
-(* placeholder until the C08 theorems land *)
-From Jamm Require Import Cursor.
-Lemma c08_placeholder : True. Proof. exact I. Qed.
-Print Assumptions c08_placeholder.
+(* C08 -- cursors, seeks and ranges return the right entries in order.
+   Property theorems only; proofs live in proofs/CursorFacts.v (and proofs/SeekFacts.v). *)
+From Coq Require Import List.
+From Jamm Require Import Bytes Codec Tree Spec Cursor CursorFacts.
+Import ListNotations.
+
+(* a cursor yields every entry of its bucket exactly once, in tree order (= ascending key order on a
+   well-formed tree); empty leaves left by deletes inside a transaction are skipped *)
+Theorem C08_cursor_all : forall t, no_empty_branch t = true ->
+  scan t = CVal (map Cursor.to_item (flatten t)).
+Proof. exact cursor_all. Qed.
+Print Assumptions C08_cursor_all.
+
+(* calling next() again after the end is harmless: None forever, never a panic (both build profiles:
+   the repaired machine has no usize subtraction) *)
+Theorem C08_cursor_end : forall t, no_empty_branch t = true -> forall m, exists c_end,
+  run (length (flatten t) + m) (S (nodes t)) (new_cursor t)
+  = CVal (c_end, map (fun e => Some (Cursor.to_item e)) (flatten t) ++ repeat None m).
+Proof. exact cursor_end. Qed.
+Print Assumptions C08_cursor_end.
+
+Theorem C08_never_panics : forall t, no_empty_branch t = true -> forall c,
+  reachable (S (nodes t)) t c -> next (S (nodes t)) c <> CPanic.
+Proof. exact cursor_never_panics. Qed.
+Print Assumptions C08_never_panics.
+
+(* the pinned (pre-repair) machine violates the property: kept so a regression is recognised *)
+Theorem C08_legacy_debug_refuted : forall F, exists c1,
+  next_legacy true (S F) (new_cursor (TL 3 0 [])) = CVal (c1, None) /\
+  next_legacy true (S F) c1 = CPanic.
+Proof. exact next_legacy_debug_refuted. Qed.
+Print Assumptions C08_legacy_debug_refuted.
